@@ -6,6 +6,7 @@ import AC.SeqLast
 import AC.OptProof
 import AC.Gen.Ensemble
 import AC.C01Total
+import AC.DictSumTie
 /-! # C01 — every search algorithm returns a genuine addition chain ending at the target
 
 Model: `P.DA.execute` (`exec.Execute` over `binary.RightToLeft`, `alg.AsChainAlgorithm`,
@@ -185,5 +186,23 @@ theorem C01_ensemble_wf : ∀ a ∈ AC.Gen.ensembleConfigs, a.wf = true := by
 
 /-- non-vacuity: a dictionary algorithm with the optimisation wrapper is well-formed -/
 example : (ChainAlg.opt (.dict (.sliding 4) (.heuristic (.useFirst [.halving, .deltaLargest])))).wf = true := by decide
+
+/-- **source-level**: `dictsumchain` as TRANSLATED from the current dict.go, on a sum `L ++ [b]` of natural
+    terms whose exponents do not increase from the top term `b` down: it never panics, every emitted
+    element is the double of its predecessor or its predecessor plus a dictionary entry of the sum, and
+    the last one is the value of the whole sum -/
+theorem C01_src_dictsum (L : List (Nat × Nat)) (b : Nat × Nat) (h : P.DictSum.Desc b.2 L.reverse) :
+    ∃ dc : List Nat, AC.Gen.Program.dictdictsumchain (AC.DictSumTie.G (L ++ [b])) = some (AC.DictSumTie.I dc) ∧
+      (∀ y ∈ dc, ∃ x, (x = b.1 ∨ x ∈ dc) ∧ (y = x + x ∨ ∃ t ∈ L.reverse, y = x + t.1)) ∧
+      P.DictSum.lastOr dc b.1 = b.1 * 2 ^ b.2 + P.DictSum.value L.reverse := by
+  refine ⟨P.DictSum.go b.1 b.2 L.reverse, ?_, C01_dictsum L.reverse b.1 b.2 h⟩
+  rw [AC.DictSumTie.dictsumchain_tie (L ++ [b]) (by simp)]
+  simp [P.DictSum.dictsumchain]
+
+/-- the translated `dictsumchain` never panics on a non-empty sum of natural terms (any order) -/
+theorem C01_src_dictsum_total (l : List (Nat × Nat)) (hne : l ≠ []) :
+    AC.Gen.Program.dictdictsumchain (AC.DictSumTie.G l) =
+      some (AC.DictSumTie.I (dictSumChain l)) := by
+  rw [AC.DictSumTie.dictsumchain_tie l hne]; rfl
 
 end AC.Props.C01
